@@ -420,13 +420,23 @@ func (c *Ctx) aesCbcDecryptRules(r *Report, prefix string) {
 		// last decrypted octet p leaves p + 1 <= 16 n octets to strip (RFC 7296 3.14: the receiver accepts any pad
 		// length, not only the minimal one)
 		in = fn.Params[1]
-		spec := &domSpec{ExactLenParam: -1, LenDom: map[string][2]int64{in.Name(): {32, INF}}, NonNil: map[string]bool{fn.Params[0].Name(): true}, EnvErr: map[string]string{},
+		recv := fn.Params[0].Name()
+		spec := &domSpec{ExactLenParam: -1, LenDom: map[string][2]int64{in.Name(): {32, INF}},
+			// the object NewCrypto builds: a keyed AES block (block size 16), no injected IV
+			NonNil: map[string]bool{recv: true, recv + ".Block": true}, IsNil: map[string]bool{recv + ".Iv": true},
+			CallVals: map[string][]int64{"BlockSize": {16}}, EnvErr: map[string]string{},
 			Rel: func(f *FA) []Fact {
 				var out []Fact
 				inLen := f.SliceLen(fn.Params[1])
 				for _, b := range f.Fn.Blocks {
 					for _, ins := range b.Instrs {
 						switch x := ins.(type) {
+						case *ssa.Call:
+							// the block size of the keyed AES object is 16
+							if x.Call.IsInvoke() && x.Call.Method.Name() == "BlockSize" {
+								l := f.LFOf(x)
+								out = append(out, Fact{L: l.add(konst(16), -1)}, Fact{L: konst(16).add(l, -1)})
+							}
 						case *ssa.BinOp:
 							// (len(in) - 16k) % 16 == 0 on the domain
 							if x.Op != token.REM {
